@@ -304,6 +304,11 @@ def c04(ctx, rep):
     fam.append(("inline-label-chain", hdr + "A <- v:B { return v, nil }\nB <- v:C 'b' { return v, nil }\nC <- v:'c' { return v, nil }\n", og))
     fam.append(("inline-label-predicates", hdr + "A <- v:B &{ return v != nil, nil } !{ return v == nil, nil }\nB <- v:'b' &{ return v != nil, nil }\n", og))
     fam.append(("inline-label-in-choice", hdr + "A <- v:( B / 'z' ) w:B { return []any{v, w}, nil }\nB <- w:'b' v:'c'? { return []any{v, w}, nil }\n", og))
+    # code points that Go source can only spell with an escape (non-printable: controls, format characters, private use,
+    # noncharacters, in and above the BMP) as class members, range ends and literals, with and without the i flag
+    for k, cls in enumerate(["[\\U000E0001K]i", "[\\U000F0000-\\U000FFFFD]i", "[^\\U0010FFFF]i", "[\\u200B\\x7F]i", "[\\x00-\\x1f\\u0085]i", "[\\U000E0001K]", "[\\uFFFE-\\U00010000]i",
+                             "\"\\U000E0001\\u200BK\"i", "\"\\x00\\U0010FFFF\"", "'\\U000E0020'i"]):
+        fam.append(("nonprintable-%d" % k, hdr + "A <- %s 'x' / B\nB <- 'y' %s\n" % (cls, cls), [[], ["-optimize-grammar"], ["-optimize-parser", "-optimize-basic-latin"]]))
     fam.append(("nested-action", hdr + "A <- ( l1:'a' { return l1, nil } ) l2:'c' { return l2, nil }\n", [[], ["-optimize-grammar"]]))
     for k in range(1, 13):
         fam.append(("method-index-%d" % k, hdr + "Start <- A A1\nA <- %s &{ return true, nil }\nA1 <- &{ return true, nil }\n" % " ".join("'a'" for _ in range(k)),
